@@ -201,6 +201,33 @@ func typedTargeted(repU *Report, wU *CaseWriter, r *rand.Rand) {
 		pair{reflect.TypeOf(MyBytes(nil)), []sb.Token{{Kind: sb.KindBytes, Value: []byte("ab")}}},
 		pair{reflect.TypeOf([]MyInt8{}), []sb.Token{{Kind: sb.KindBytes, Value: []byte("ab")}}},
 	)
+	// bytes-typed map keys of every length around the sizes an implementation might special-case
+	for _, l := range []int{0, 1, 2, 7, 8, 9, 15, 16, 17, 19, 20, 21, 24, 31, 32, 33, 40, 64, 65} {
+		k := make([]byte, l)
+		for i := range k {
+			k[i] = byte(i + 1)
+		}
+		pairs = append(pairs,
+			pair{at, mm(sb.Token{Kind: sb.KindBytes, Value: k}, tokI(l))},
+			pair{at, []sb.Token{tokK(sb.KindArray), tokK(sb.KindMap), {Kind: sb.KindBytes, Value: k}, tokK(sb.KindMap), {Kind: sb.KindBytes, Value: k}, tokS("v"), tokK(sb.KindMapEnd), tokK(sb.KindMapEnd), tokK(sb.KindArrayEnd)}})
+	}
+	// the same field named twice: each occurrence is decoded on its own (a pointer field gets a fresh pointee)
+	type pAB struct{ A, B int }
+	type holdP struct {
+		P *pAB
+		S []int
+		M map[string]int
+		V pAB
+	}
+	hp := reflect.TypeOf(holdP{})
+	pairs = append(pairs,
+		pair{hp, obj(tokS("P"), tokK(sb.KindObject), tokS("A"), tokI(1), tokK(sb.KindObjectEnd), tokS("P"), tokK(sb.KindObject), tokS("B"), tokI(2), tokK(sb.KindObjectEnd))},
+		pair{hp, obj(tokS("V"), tokK(sb.KindObject), tokS("A"), tokI(1), tokK(sb.KindObjectEnd), tokS("V"), tokK(sb.KindObject), tokS("B"), tokI(2), tokK(sb.KindObjectEnd))},
+		pair{hp, obj(tokS("S"), tokK(sb.KindArray), tokI(1), tokI(2), tokK(sb.KindArrayEnd), tokS("S"), tokK(sb.KindArray), tokI(3), tokK(sb.KindArrayEnd))},
+		pair{hp, obj(tokS("M"), mm(tokS("a"), tokI(1))[0], tokS("a"), tokI(1), tokK(sb.KindMapEnd), tokS("M"), tokK(sb.KindMap), tokS("b"), tokI(2), tokK(sb.KindMapEnd))},
+		pair{hp, obj(tokS("P"), tokK(sb.KindObject), tokS("A"), tokI(1), tokK(sb.KindObjectEnd), tokS("P"), tokK(sb.KindNil))},
+		pair{reflect.TypeOf([]*pAB{}), []sb.Token{tokK(sb.KindArray), tokK(sb.KindObject), tokS("A"), tokI(1), tokK(sb.KindObjectEnd), tokK(sb.KindNil), tokK(sb.KindObject), tokS("B"), tokI(2), tokK(sb.KindObjectEnd), tokK(sb.KindArrayEnd)}},
+	)
 	for _, p := range pairs {
 		if usesEmbeddedOrRecursive(p.t) {
 			continue
@@ -236,6 +263,110 @@ func typedTargeted(repU *Report, wU *CaseWriter, r *rand.Rand) {
 			if asc, _ := mapKeysAscending(p.ts); asc && !hasName && inSchemalessDomain(p.ts) {
 				anyOracle(repU, p.ts, "any: "+desc, true)
 			}
+		}
+	}
+}
+
+// C11 (registered names resurrect values of exactly those types) over registration HISTORIES: a type
+// whose name was already asked for, and an element type registered after its pointer type, must be
+// registered like any other
+func typedRegistrationOrder(repM, repU *Report) {
+	base := reflect.TypeOf(RegNested{})
+	ptrN := func(n int) reflect.Type {
+		t := base
+		for i := 0; i < n; i++ {
+			t = reflect.PtrTo(t)
+		}
+		return t
+	}
+	check := func(t reflect.Type, history string) {
+		desc := fmt.Sprintf("registration history: %s; type %v", history, t)
+		v := reflect.New(t.Elem()) // a value of type t
+		ts, err := marshalTokens(v.Interface(), nil)
+		repM.Evaluations++
+		if err != nil || len(ts) == 0 || ts[0].Kind != sb.KindTypeName || ts[0].Value != sb.TypeName(t) {
+			repM.violate("C08", "registered-not-prefixed", fmt.Sprintf("a value of a registered type is marshalled without its type name: (%v) %s", err, descTokens(ts)), desc)
+		}
+		var x any
+		e := guard(func() error {
+			return copyBudget(tokensFrom([]sb.Token{{Kind: sb.KindTypeName, Value: sb.TypeName(t)}, {Kind: sb.KindNil}}), sb.Unmarshal(&x))
+		})
+		repU.Evaluations++
+		if e != nil || x == nil || reflect.TypeOf(x) != t {
+			repU.violate("C11", "registered-name-not-resurrected", fmt.Sprintf("the type name of a registered type decodes into %T (%v), not into the registered type", x, e), desc)
+		}
+	}
+	// 1. the name is asked for first
+	t1 := ptrN(3)
+	_ = sb.TypeName(t1)
+	sb.Register(t1)
+	check(t1, "TypeName(T) then Register(T)")
+	// 2. pointer type first, then its element type
+	t2 := ptrN(5)
+	sb.Register(reflect.PtrTo(t2))
+	sb.Register(t2)
+	check(reflect.PtrTo(t2), "Register(*T) then Register(T): *T")
+	check(t2, "Register(*T) then Register(T): T")
+	// 3. a value marshalled (unregistered) before the registration
+	t3 := ptrN(8)
+	_, _ = marshalTokens(reflect.New(t3.Elem()).Interface(), nil)
+	sb.Register(t3)
+	check(t3, "Marshal(value of T) then Register(T)")
+	// 4. registering twice
+	t4 := ptrN(10)
+	sb.Register(t4)
+	sb.Register(t4)
+	check(t4, "Register(T) twice")
+}
+
+// C05: object fields are matched by exported name - including the fields promoted from embedded structs
+// (embedded fields are outside the Coq model of unmarshal: this is a Go-side oracle on hand-made pairs)
+type embBase struct {
+	ID  int
+	Tag string
+}
+type EmbPub struct{ Code int16 }
+type WithPromoted struct {
+	embBase
+	EmbPub
+	Name string
+}
+
+func typedEmbedded(repU *Report) {
+	obj := func(fields ...sb.Token) []sb.Token {
+		return append(append([]sb.Token{tokK(sb.KindObject)}, fields...), tokK(sb.KindObjectEnd))
+	}
+	i16 := sb.Token{Kind: sb.KindInt16, Value: int16(3)}
+	cases := []struct {
+		ts   []sb.Token
+		want *WithPromoted // nil: must be rejected
+	}{
+		{obj(tokS("ID"), tokI(7), tokS("Name"), tokS("foo")), &WithPromoted{embBase: embBase{ID: 7}, Name: "foo"}},
+		{obj(tokS("Name"), tokS("foo"), tokS("Tag"), tokS("bar"), tokS("ID"), tokI(7)), &WithPromoted{embBase: embBase{ID: 7, Tag: "bar"}, Name: "foo"}},
+		{obj(tokS("Code"), i16), &WithPromoted{EmbPub: EmbPub{Code: 3}}},
+		{obj(tokS("Code"), i16, tokS("ID"), tokI(1), tokS("Nope"), tokI(5)), &WithPromoted{embBase: embBase{ID: 1}, EmbPub: EmbPub{Code: 3}}},
+		{obj(tokS("EmbPub"), tokK(sb.KindObject), tokS("Code"), i16, tokK(sb.KindObjectEnd)), &WithPromoted{EmbPub: EmbPub{Code: 3}}},
+		{obj(tokS("ID"), tokS("seven")), nil},
+		{obj(tokS("Tag"), tokI(1)), nil},
+		{obj(tokS("Code"), tokI(3)), nil},
+	}
+	for _, c := range cases {
+		var got WithPromoted
+		e := guard(func() error { return copyBudget(tokensFrom(c.ts), sb.Unmarshal(&got)) })
+		repU.Evaluations++
+		repU.count("c05:promoted-field")
+		desc := fmt.Sprintf("promoted fields: target=main.WithPromoted stream=[%s]", descTokens(c.ts))
+		switch {
+		case classOf(e) == "EPanic" || classOf(e) == "EDiverge":
+			repU.violate("C05", "unmarshal-panic", fmt.Sprintf("Unmarshal panicked: %v", e), desc)
+		case c.want == nil && e == nil:
+			repU.violate("C05", "mismatch-accepted", fmt.Sprintf("a value of the wrong kind for a promoted field was accepted: %+v", got), desc)
+		case c.want == nil && !isUnmarshalError(e):
+			repU.violate("C05", "not-an-unmarshal-error", fmt.Sprintf("%v", e), desc)
+		case c.want != nil && e != nil:
+			repU.violate("C05", "conforming-rejected", fmt.Sprintf("a conforming stream was rejected: %v", e), desc)
+		case c.want != nil && got != *c.want:
+			repU.violate("C05", "field-not-matched-by-name", fmt.Sprintf("got %+v, want %+v", got, *c.want), desc)
 		}
 	}
 }
